@@ -514,3 +514,33 @@ variant("ser-hexint-table", "C15", SER, """        prefix = ""
             prefix = "-"
         elif 256 <= v:
             prefix = "+\"""", """        prefix = "" if v <= 15 else ("-" if v <= 255 else "+")""")
+
+# ---- C16 ---------------------------------------------------------------------------------------
+mutant("url-order-swapped", "C16", SER, 'return f"{prefix}{puzzle}/{width}/{height}/{serialized}"', 'return f"{prefix}{puzzle}/{height}/{width}/{serialized}"', "URL-HDR")
+mutant("url-reader-swapped", "C16", SER, "    width = int(m[2])\n    height = int(m[3])", "    height = int(m[2])\n    width = int(m[3])", "URL-RT")
+mutant("url-info-swapped", "C16", SER, "        return (m[1], int(m[3]), int(m[2]))", "        return (m[1], int(m[2]), int(m[3]))", "DK-6")
+mutant("url-compass-parse-swapped", "C16", "cspuz/puzzle/compass.py", '    width, height, body = url.split("/")[-3:]', '    height, width, body = url.split("/")[-3:]', "URL-RT", "the original defect")
+mutant("url-compass-writer-order", "C16", "cspuz/puzzle/compass.py", 'return "https://puzz.link/p?compass/{}/{}/{}".format(width, height, util.encode_array(problem))', 'return "https://puzz.link/p?compass/{}/{}/{}".format(height, width, util.encode_array(problem))', "URL-HDR")
+mutant("url-compass-clue-order", "C16", "cspuz/puzzle/compass.py", 'problem[y][x] = tuple(map(lambda x: "." if x == -1 else x, (u, d, l, r)))', 'problem[y][x] = tuple(map(lambda x: "." if x == -1 else x, (u, l, d, r)))', "URL-RT")
+mutant("url-masyu-other-codec", "C16", "cspuz/puzzle/masyu.py", "    return deserialize_problem_as_url(MASYU_COMBINATOR, url, allowed_puzzles=[\"masyu\", \"mashu\"])", "    return deserialize_problem_as_url(Grid(MultiDigit(base=3, digits=2)), url, allowed_puzzles=[\"masyu\", \"mashu\"])", "URL-RT")
+mutant("url-slither-name", "C16", "cspuz/puzzle/slitherlink.py", 'return serialize_problem_as_url(SLITHERLINK_COMBINATOR, "slither", height, width, problem)', 'return serialize_problem_as_url(SLITHERLINK_COMBINATOR, "slitherlink", height, width, problem)', "URL-HDR")
+mutant("url-nurikabe-dims", "C16", "cspuz/puzzle/nurikabe.py", 'return serialize_problem_as_url(NURIKABE_COMBINATOR, "nurikabe", height, width, problem)', 'return serialize_problem_as_url(NURIKABE_COMBINATOR, "nurikabe", width, height, problem)', "URL-RT")
+mutant("url-nurimisaki-marker", "C16", "cspuz/puzzle/nurimisaki.py", 'NURIMISAKI_COMBINATOR = Grid(OneOf(Dict([0], ["."]), Spaces(-1, "g"), HexInt()))', 'NURIMISAKI_COMBINATOR = Grid(OneOf(Dict([0], ["."]), Spaces(-1, "h"), HexInt()))', "URL-REF")
+mutant("url-yajilin-dirmap", "C16", "cspuz/puzzle/yajilin.py", 'DIR_MAP = {"^": 1, "v": 2, "<": 3, ">": 4}', 'DIR_MAP = {"^": 2, "v": 1, "<": 3, ">": 4}', "URL-RT")
+mutant("url-yajilin-qq", "C16", "cspuz/puzzle/yajilin.py", """        if value == "??":
+            return 1, "0."
+""", "", "URL-RT", "the original defect")
+mutant("url-heyawake-names", "C16", "cspuz/puzzle/heyawake.py", 'return serialize_problem_as_url(HEYAWAKE_COMBINATOR, "heyawake", height, width, (rooms, clues))', 'return serialize_problem_as_url(HEYAWAKE_COMBINATOR, "heyawake", height, width, (rooms, clues[::-1]))', "URL-RT")
+mutant("url-aquarium-clue-order", "C16", "cspuz/puzzle/aquarium.py", "clues_str = util.encode_array(clue_col + clue_row, empty=-1)", "clues_str = util.encode_array(clue_row + clue_col, empty=-1)", "URL-REF")
+mutant("url-aquarium-order", "C16", "cspuz/puzzle/aquarium.py", 'return "https://puzz.link/p?aquarium/{}/{}/{}/{}".format(width, height, blocks_str, clues_str)', 'return "https://puzz.link/p?aquarium/{}/{}/{}/{}".format(height, width, blocks_str, clues_str)', "URL-HDR")
+mutant("url-legacy-hex-threshold", "C16", "cspuz/puzzle/util.py", "        elif v <= 255:", "        elif v <= 256:", "URL-LEG")
+mutant("url-legacy-segmentation-order", "C16", "cspuz/puzzle/util.py", """    s = []
+    for y in range(height):
+        for x in range(width - 1):
+            s.append(1 if block_id[y][x] != block_id[y][x + 1] else 0)
+    ret = convert_binary_seq(s)""", """    s = []
+    for x in range(width - 1):
+        for y in range(height):
+            s.append(1 if block_id[y][x] != block_id[y][x + 1] else 0)
+    ret = convert_binary_seq(s)""", "URL-LEG")
+variant("url-named-fields", "C16", SER, 'return f"{prefix}{puzzle}/{width}/{height}/{serialized}"', 'return "{}{}/{w}/{h}/{}".format(prefix, puzzle, serialized, w=width, h=height)')
